@@ -440,7 +440,13 @@ where
             TokenKind::Keyword((Keyword::Await, false)) => {
                 // Check if this is `await using`
                 // Per spec, there must be [no LineTerminator here] between `await` and `using`
-                if let Some(next_tok) = cursor.peek_no_skip_line_term(1, interner)?
+                // A line terminator in front of `await` is still in the token buffer.
+                let skip_n = if cursor.peek_is_line_terminator(0, interner).or_abrupt()? {
+                    2
+                } else {
+                    1
+                };
+                if let Some(next_tok) = cursor.peek_no_skip_line_term(skip_n, interner)?
                     && next_tok.kind() != &TokenKind::LineTerminator
                     && matches!(next_tok.kind(), TokenKind::Keyword((Keyword::Using, false)))
                 {
